@@ -1,14 +1,4 @@
-/* type environment + loop contracts for unit assets_lexical (C20) */
-
-/* "a '/'-delimited segment of q that starts at index i equals '..'" (by-value macro; casts instead of char literals) */
-/* reads are clamped to index 0 when out of range so that a clause has ONE short-circuit guard (q.n > 0) and otherwise only bitwise
- * connectives: nested &&/|| around dereferences multiply the formula (measured: x3 per read) */
-#define RD(q, i) ((q).p[(i) < (q).n ? (i) : 0])
-#define CL(i) ((i) <= IORA_SV_MAXLEN ? (i) : 0)      /* spec-side index arithmetic cannot wrap */
-#define DOTDOT_NZ(q, i) (((i) <= IORA_SV_MAXLEN) & (CL(i) + 2 <= (q).n) \
-   & (((i) == 0) | (RD(q, CL(i) == 0 ? 0 : CL(i) - 1) == (char)47)) & (RD(q, CL(i)) == (char)46) & (RD(q, CL(i) + 1) == (char)46) \
-   & ((CL(i) + 2 == (q).n) | (RD(q, CL(i) + 2) == (char)47)))
-#define DOTDOT_AT(q, i) ((q).n > 0 && DOTDOT_NZ(q, i))
+/* type environment + loop contracts for unit assets_lexical (C20); spec macros are in lex_contract.h */
 
 /* loop 1 of lexicallyRejected: the segment walk. `start` is always a segment start; no ".." segment starts before it (at the ghost GS). */
 #define IORA_LOOP_lexicallyRejected_1 IORA_LC( \
